@@ -326,6 +326,21 @@ class RustFile:
                 return dict(start=start, end=k + 1, kw=a)
             else:  # struct / enum / trait
                 k = a
+                # skip a generic parameter list (it may contain `FnMut() -> T` bounds)
+                mg = re.match(r"\w+\s+\w+\s*<", self.mask[a:hi])
+                if mg:
+                    k = a + mg.end() - 1
+                    d = 0
+                    while k < hi:
+                        ch = self.mask[k]
+                        if ch == "<":
+                            d += 1
+                        elif ch == ">" and self.mask[k - 1] != "-":
+                            d -= 1
+                            if d == 0:
+                                k += 1
+                                break
+                        k += 1
                 while k < hi and self.mask[k] not in "{;(":
                     k += 1
                 if self.mask[k] == ";":
